@@ -52,6 +52,9 @@ checks["C09"] = dict(level="model_checking", text=MERGE_TEXT + "every tree is lo
 checks["C10"] = dict(level="model_checking", text="Vars.tla defines Value(cfg) (fold over the definition sites os < global/cli < include statement < included Taskfile < call < task with literal / template-of-lower / sh kinds) and EnvValue(cfg) (task env > task dotenv > global env > global dotenv, process environment first or last depending on the experiment). TLC enumerates every configuration as initial states with the expected value; each is one CLI run that prints {{.N}} / $E, for a task in the root file and in an included file.",
    note=CASES_NOTE, ref="DESIGN.md 4.3, 5 (C10)", tech="TLA+ precedence specification enumerated by TLC (cases), each case replayed through the task CLI", engine="load")
 
+checks["C20"] = dict(level="model_checking", text="Remote.tla models readRemoteNodeContent (cache lookup, expiry, --offline, --download, fall-back on failure, checksum approval, the cache writes) as a decision per invocation over the state (server version and reachability, cache content / approved checksum / timestamp age); TLC checks the RemoteProps monitor (nothing unapproved runs, unapproved new content gives 104, an approved cached copy keeps tasks runnable offline or with the network down, plain http needs --insecure) on every history up to the depth bound. Histories from a grammar over server states x every flag subset, plus seeded random ones, are executed with the task CLI against an HTTP server owned by the driver; observed exit status and the content version that ran are judged by TLC with the same monitor and compared with the model's decision.",
+   note="Trusted: TLC; local HTTP server of the driver; approval only via --yes (no terminal); one remote include over http.", ref="DESIGN.md 4.5, 5 (C20)", tech="TLA+ state machine of the remote cache checked by TLC + history replay against the CLI and a driver-owned HTTP server + TLC evaluation of observed histories", engine="remote")
+
 ALL = ["C%02d" % i for i in range(1, 21)]
 pending = {p: "check not built yet in this round (planned, see DESIGN.md section 5)" for p in ALL if p not in checks}
 
@@ -71,6 +74,7 @@ m = {
    "kind_free_text": "TLA+ functional specifications (cases models) enumerated by TLC, compared with the real loader/resolver"},
   {"name": "cli", "path": "specs/cli + harness/clifam", "serves_properties": ["C19"], "kind_free_text": "TLA+ cases specification + CLI driver with argv-recording helper"},
   {"name": "out", "path": "specs/out + harness/outfam", "serves_properties": ["C17"], "kind_free_text": "TLA+ model of group/prefixed writers; blocking-sink replay"},
+  {"name": "remote", "path": "specs/remote + harness/remotefam", "serves_properties": ["C20"], "kind_free_text": "TLA+ model of the remote Taskfile cache; CLI histories against a local HTTP server"},
  ],
  "checks": [], "not_applicable": [], "notes": "Every check: bash /verif/run.sh <id> <quick|thorough>; replay: bash /verif/run.sh <id> --replay <file>."
 }
